@@ -19,6 +19,9 @@ txt = ['## Appendix D. Independently seeded changes and the checks that catch th
        'Patch, demonstration and `meta.json` are in `/verif/seeded/<id>/`; `tools/try_patch.sh <patch> <PROP>` re-runs a',
        'check against a scratch copy with the change applied. Rules named `…[changed-effect#k]`, `[missing-effect#k]`,',
        '`[extra-effect#k]` are reference-model comparisons (E2b); the others are structural rules.', '',
+       'Ids `Cxx-k` are the first round; ids `Cxx-r2-k` a second round whose prompt asked for changes in helper functions,',
+       'option plumbing and callers rather than in the function the property names (to probe the edges of what each check reads).',
+       'Changes that a check missed when first tried, and what was strengthened, are listed in the change log (item 10).', '',
        f'{len(rows)} confirmed changes, {sum(1 for r in rows if not r.endswith("| - |"))} detected by the owning check.', '',
        '| id | file(s) | what the change does / needs (from the author\'s notes) | first rule(s) that report it |',
        '|----|---------|----------------------------------------------------------|------------------------------|'] + rows + ['']
